@@ -16,7 +16,7 @@ RULE = ('each generated deck (flat / universes / lattices / LIKE cells, with TR 
         'TR and IMP cards. The written file must be byte-identical to that of the canonical text apart from the '
         'header comment. Also: the 128 upstream decks of the repository are converted (corpus, must not raise). '
         'Streams cards: get_cards/Card.content vs the Lean lexer model. Distinct = (deck, style).')
-NOT_PROVED = ['letter case of surface mnemonics and data-card names (one .lower() per reader): decided by the restyling '
+NOT_PROVED = ['letter case of data-card names (one .lower() per reader; for surface mnemonics see surface_mnemonic_case_immaterial): decided by the restyling '
               'differential only; the splits of cell / surface / data cards and the keyword tokeniser are modelled '
               'character by character, tied by the cellsplit / cardsplit / opttokens streams and proved to return the fields '
               'as written (cell_card_split_*, surface_card_split*, data_card_split, keyword_case_immaterial); the '
